@@ -22,6 +22,31 @@ def _var_or_field(e, name):
     return name in expr_vars(e) or name in expr_fields(e)
 
 
+def _phase_flag(prog, fv, brs):
+    """Name of the bool place assigned `true` under `match msg { EndOfData .. }` and `false` under CacheReset."""
+    sets = {"EndOfData": {}, "CacheReset": {}}
+    for bi in sorted(fv.live):
+        arm = None
+        for g, l, h in flat_guards(fv, bi, brs):
+            if g[0] == "discr" and g[2] and g[2].endswith("rpki::Message") and len(l) == 1 and next(iter(l)) in sets:
+                arm = next(iter(l))
+        if arm is None:
+            continue
+        for st in fv.blocks[bi]["s"]:
+            rv = st.get("rv")
+            if rv and rv["r"] == "use" and "k" in rv["o"] and rv["o"]["k"].get("v") in (0, 1) and "bool" in str(rv["o"]["k"].get("ty", "bool")):
+                nm = None
+                for e in reversed(st["p"].get("p") or []):
+                    if isinstance(e, dict) and e.get("n"):
+                        nm = e["n"]
+                        break
+                nm = nm or fv.local_name.get(st["p"]["l"])
+                if nm:
+                    sets[arm].setdefault(nm, set()).add(rv["o"]["k"]["v"])
+    cands = [n for n, vs in sets["EndOfData"].items() if vs == {1} and sets["CacheReset"].get(n) == {0}]
+    return cands[0] if len(cands) == 1 else None
+
+
 def run(prog, rep, tier):
     sk = prog.one(r"rustybgpd::rpki::RpkiClient::serve_inner")
     fv = view(prog, prog.body_key(sk))
@@ -40,9 +65,13 @@ def run(prog, rep, tier):
     r1 = rep.rule("R13.1", "snapshot install only in the snapshot phase; incremental changes only after it")
     r1.analysed(prog.name(sk))
 
+    # the phase flag is whatever bool is set under the End-of-Data arm and cleared under the Cache-Reset arm (its name is the
+    # maintainer's business)
+    flag = _phase_flag(prog, fv, brs) or "end_of_data"
+
     def phase(bi):
         for g, labels, how in flat_guards(fv, bi, brs):
-            if _var_or_field(g, "end_of_data") and labels <= {"true", "false"} and g[0] in ("var", "field", "deref"):
+            if _var_or_field(g, flag) and labels <= {"true", "false"} and g[0] in ("var", "field", "deref"):
                 return "incremental" if labels == {"true"} else "snapshot"
         return None
     n = 0
@@ -69,8 +98,8 @@ def run(prog, rep, tier):
         else:
             r1.fail(prog.name(sk), "phase:buffer-push", "the snapshot buffer is filled outside the snapshot phase", fv.loc(bi))
     # end_of_data is set on EndOfData
-    sets = [bi for bi, si, s in field_writes(fv, "end_of_data")] + \
-        [bi for l, nme in fv.local_name.items() if nme == "end_of_data" for bi, si, s in fv.defs().get(l, [])]
+    sets = [bi for bi, si, s in field_writes(fv, flag)] + \
+        [bi for l, nme in fv.local_name.items() if nme == flag for bi, si, s in fv.defs().get(l, [])]
     if sets:
         r1.ok("end_of_data is written in %d place(s)" % len(sets))
     else:
@@ -106,7 +135,7 @@ def run(prog, rep, tier):
                             ok_send = True
                         if rv and rv["r"] == "use" and (rv["o"].get("k") or {}).get("variant") == "ResetQuery":
                             ok_send = True        # `&Message::ResetQuery` is a promoted constant
-                        if "rv" in s and (s["p"].get("p") and any(isinstance(e, dict) and e.get("n") == "end_of_data" for e in s["p"]["p"]) or fv.local_name.get(s["p"]["l"]) == "end_of_data"):
+                        if "rv" in s and (s["p"].get("p") and any(isinstance(e, dict) and e.get("n") == flag for e in s["p"]["p"]) or fv.local_name.get(s["p"]["l"]) == flag):
                             if rv["r"] == "use" and rv["o"].get("k", {}).get("v") == 0:
                                 ok_phase = True
             if ok_send and ok_phase:
